@@ -96,3 +96,13 @@ pub fn loopback_pair() -> (std::net::TcpStream, std::net::TcpStream) {
     eprintln!("machinery error: cannot create a loopback connection: {last}");
     std::process::exit(2)
 }
+
+/// All regular files below `dir`, recursively (nothing if it does not exist).
+pub fn walk(dir: &std::path::Path, out: &mut Vec<std::path::PathBuf>) {
+    let Ok(rd) = std::fs::read_dir(dir) else { return };
+    let mut entries: Vec<_> = rd.flatten().map(|e| e.path()).collect();
+    entries.sort();
+    for p in entries {
+        if p.is_dir() { walk(&p, out) } else { out.push(p) }
+    }
+}
